@@ -658,11 +658,3 @@ pub fn c16_from_weight_rows_n2() {
 pub fn c16_from_weight_rows_rejects_n2() {
     from_weight_rows::<2, 3>(false);
 }
-
-// AdjacencyMatrix::from(1..=2 arcs with ids < 4).
-// @verif prop=C16 tier=quick fl=f0 role=from-arcs/matrix t=1200 mem=20
-#[cfg_attr(kani, kani::proof)]
-#[cfg_attr(kani, kani::unwind(10))]
-pub fn c16_from_arcs_matrix_k2() {
-    from_arcs::<2, 4>(0);
-}
